@@ -31,7 +31,8 @@ for p in $props; do
   rc=$?
   grep -E "^(VIOLATION|KNOWN-FINDING|OK |TOOL-ERROR|NOTE|ERROR)" "/verif/work/seed-$id-$p.log" | head -8
   echo "exit=$rc"
-  [ $rc -eq 1 ] || rc_all=1
+  # caught = exit 1 AND a VIOLATION line for that property (an exit code alone proves nothing)
+  { [ $rc -eq 1 ] && grep -q "^VIOLATION property=$p " "/verif/work/seed-$id-$p.log"; } || rc_all=1
 done
 rm -rf "$VERIF_WORK_DIR" "$VERIF_REPLAYS_DIR"
 [ $rc_all -eq 0 ] && echo "CAUGHT $id" || echo "MISSED $id"
